@@ -79,6 +79,34 @@ def configurations(tier):
                         'noise': 'depol', 'p': p, '_stress': 120 if tier == 'quick' else 600})
             out.append({'decoder': 'MatchingDecoder', 'code': 'Toric2DCode', 'size': list(size),
                         'noise': 'depol', 'p': p, '_stress': 120 if tier == 'quick' else 600})
+    # every constructor parameter of the decoders, on a few lattices
+    variants = [
+        ('BeliefPropagationOSDDecoder', {'max_bp_iter': 10, 'osd_order': 3, 'bp_method': 'product_sum'}),
+        ('BeliefPropagationOSDDecoder', {'max_bp_iter': 5, 'osd_order': 0, 'channel_update': True}),
+        ('BeliefPropagationOSDDecoder', {'max_bp_iter': 1, 'osd_order': 10}),
+        ('MemoryBeliefPropagationDecoder', {'max_bp_iter': 5, 'alpha': 0.7, 'beta': 0.2}),
+    ]
+    for dec, kw in variants:
+        for cname, size in (('Toric2DCode', (3, 4)), ('Planar3DCode', (2, 2, 3)), ('RotatedPlanar2DCode', (3, 5)),
+                            ('Color488Code', (2, 2))):
+            if dec == 'MemoryBeliefPropagationDecoder' and codes.qubit_count(cname, size) > 30:
+                continue
+            for cd in (None, 'first'):
+                vs = codes.deformation_variants(cname)
+                if cd and len(vs) < 2:
+                    continue
+                out.append({'decoder': dec, 'code': cname, 'size': list(size),
+                            'code_def': vs[1][0] if cd else None, 'code_def_kw': vs[1][1] if cd else None,
+                            'noise': 'Zbias', 'p': 0.1, 'dec_kwargs': dict(kw)})
+    for rounds, seed in ((1, 3), (4, 7)):
+        out.append({'decoder': 'RotatedSweepMatchDecoder', 'code': 'RotatedPlanar3DCode', 'size': [3, 3, 3],
+                    'noise': 'depol', 'p': 0.05, 'dec_kwargs': {'max_rounds': rounds}})
+    import numpy as _np
+    for cname, size in (('Toric2DCode', (3, 4)), ('Planar2DCode', (4, 3))):
+        n_ = codes.qubit_count(cname, size)
+        w = (_np.linspace(0.5, 2.0, n_).tolist(), _np.linspace(2.0, 0.5, n_).tolist())
+        out.append({'decoder': 'MatchingDecoder', 'code': cname, 'size': list(size), 'noise': 'depol',
+                    'p': 0.1, 'dec_kwargs': {'weights': w}})
     # MatchingDecoder restricted to one error type (its contract is per sector)
     for et in ('X', 'Z'):
         out.append({'decoder': 'MatchingDecoder', 'code': 'Toric2DCode', 'size': [3, 4],
